@@ -368,6 +368,11 @@ def const_int(n, idx=None):
     if k == 'UnaryOperator' and n.get('opcode') == '-':
         v = const_int(children(n)[0], idx)
         return None if v is None else -v
+    if k == 'UnaryExprOrTypeTraitExpr' and n.get('name') == 'sizeof':
+        t = ((n.get('argType') or {}).get('desugaredQualType') or (n.get('argType') or {}).get('qualType') or '').replace('const ', '').strip()
+        return {'char': 1, 'unsigned char': 1, 'signed char': 1, 'short': 2, 'unsigned short': 2, 'int': 4, 'unsigned int': 4, 'unsigned': 4,
+                'uint32_t': 4, 'int32_t': 4, 'long': 8, 'unsigned long': 8, 'uint64_t': 8, 'size_t': 8, 'long long': 8,
+                'unsigned long long': 8, 'uint8_t': 1, 'uint16_t': 2}.get(t)
     if k == 'DeclRefExpr' and idx is not None:
         r = n.get('referencedDecl', {})
         if r.get('kind') == 'EnumConstantDecl' and r.get('id') in idx.enum_consts:
